@@ -288,16 +288,17 @@ Definition write_file (sd : side) (content name ext : list Z) (kind dtype : Z) :
     let alloc := firstn (Z.to_nat nblocks) (free_blocks bat 0) in
     if zlen alloc <? nblocks then (sd, Err EValue)
     else
-      match write_slices (S (length content)) sd bat alloc content last_block 0 0 0 len with
-      | Err e => (sd, Err e)
-      | Ok (sd1, bat1) =>
-        let sd2 := bat_set sd1 bat1 in
-        match nth_error alloc 0 with
-        | None => (sd2, Err EIndex)
-        | Some first =>
-          match new_record name ext kind dtype first last_sector with
-          | Err e => (sd2, Err e)
-          | Ok rec =>
+      (* the catalogue record is built (name encoded) before anything is touched *)
+      match nth_error alloc 0 with
+      | None => (sd, Err EIndex)
+      | Some first =>
+        match new_record name ext kind dtype first last_sector with
+        | Err e => (sd, Err e)
+        | Ok rec =>
+          match write_slices (S (length content)) sd bat alloc content last_block 0 0 0 len with
+          | Err e => (sd, Err e)
+          | Ok (sd1, bat1) =>
+            let sd2 := bat_set sd1 bat1 in
             match find_slot sd2 bat1 all_slots with
             | Err e => (sd2, Err e)
             | Ok (Some (s, off)) =>
